@@ -39,7 +39,7 @@ TRUSTED = [
     'C14: CPython byte-code atomicity and the GIL are below the model; threading.Lock itself is replaced, not verified',
 ]
 
-KIND = {'rd': 0, 'wr': 1, 'acq': 2, 'snd': 3, 'rcv': 4, 'tmo': 5, 'rel': 6}
+KIND = {'rd': 0, 'wr': 1, 'acq': 2, 'snd': 3, 'rcv': 4, 'tmo': 5, 'rel': 6, 'ret': 8}
 WRAP = 0xffffffff
 
 
@@ -238,27 +238,32 @@ GDI = [6, 1]
 
 def configs(quick):
     ka = lambda n: {'kind': 'keepalive', 'reqs': [GDI] * n}
-    raw = lambda *r: {'kind': 'raw', 'reqs': [list(x) for x in r]}
+
+    def raw(*r, target=0x20):
+        return {'kind': 'raw', 'reqs': [list(x) for x in r], 'target': target}
     msg = lambda n: {'kind': 'msg', 'reqs': [GDI] * n}
+    SEL = (0x0a, 0x10)
     cs = [
+        # wire-identical requests (duplicate rq_seq possible), all to the BMC address 0x20
         ('2x1', {'threads': [raw(GDI), ka(1)], 'nsn0': 0, 's0': 5, 'auth': 0}),
+        # another responder address (0x82) and another command than the keep-alive's
+        ('2x1-targets', {'threads': [raw(SEL, target=0x82), ka(1)], 'nsn0': 63, 's0': 5, 'auth': 0}),
         ('2x2-wrap', {'threads': [raw(GDI, GDI), ka(2)], 'nsn0': 62, 's0': WRAP - 2, 'auth': 0}),
-        ('2x(2,1)-mixed', {'threads': [raw((0x0a, 0x10), GDI), ka(1)], 'nsn0': 63, 's0': 1000, 'auth': 4}),
-        ('3x1', {'threads': [raw(GDI), msg(1), ka(1)], 'nsn0': 63, 's0': WRAP - 1, 'auth': 0}),
-        ('3x(2,1,1)', {'threads': [raw(GDI, (0x0a, 0x10)), raw(GDI), ka(1)], 'nsn0': 7, 's0': 0, 'auth': 2}),
-    ]
-    # the BMC sends an unrelated frame (stale rq_seq) before the reply to the listed datagrams;
-    # max_retries >= 1 lets the code read past it (the branch repaired by F4)
-    cs += [
+        ('2x(2,1)-mixed', {'threads': [raw(SEL, GDI, target=0x82), ka(1)], 'nsn0': 63, 's0': 1000, 'auth': 4}),
+        ('3x1', {'threads': [raw(SEL, target=0x82), msg(1), ka(1)], 'nsn0': 63, 's0': WRAP - 1, 'auth': 0}),
+        ('3x1-same', {'threads': [raw(GDI), msg(1), ka(1)], 'nsn0': 63, 's0': WRAP - 1, 'auth': 0}),
+        # the BMC sends an unrelated frame (stale rq_seq) before the reply to the listed datagrams;
+        # max_retries >= 1 lets the code read past it (the branch repaired by F4)
         ('2x2-stale', {'threads': [raw(GDI, GDI), ka(2)], 'nsn0': 63, 's0': 9, 'auth': 0,
                        'max_retries': 1, 'stale': [0, 1, 3]}),
-        ('3x1-stale', {'threads': [raw(GDI), msg(1), ka(1)], 'nsn0': 0, 's0': WRAP, 'auth': 0,
-                       'max_retries': 2, 'stale': [1, 2]}),
     ]
     if not quick:
         cs += [
+            ('3x(2,1,1)', {'threads': [raw(GDI, SEL), raw(GDI, target=0x84), ka(1)], 'nsn0': 7, 's0': 0, 'auth': 2}),
+            ('3x1-stale', {'threads': [raw(GDI, target=0x82), msg(1), ka(1)], 'nsn0': 0, 's0': WRAP, 'auth': 0,
+                           'max_retries': 2, 'stale': [1, 2]}),
             ('3x2', {'threads': [raw(GDI, GDI), msg(2), ka(2)], 'nsn0': 61, 's0': WRAP - 3, 'auth': 0}),
-            ('2x3', {'threads': [raw(GDI, (0x0a, 0x10), GDI), ka(3)], 'nsn0': 0, 's0': 77, 'auth': 4}),
+            ('2x3', {'threads': [raw(GDI, SEL, GDI, target=0x82), ka(3)], 'nsn0': 0, 's0': 77, 'auth': 4}),
             ('2x1-retries', {'threads': [raw(GDI), ka(1)], 'nsn0': 0, 's0': 5, 'auth': 0, 'max_retries': 2}),
         ]
     return cs
@@ -320,14 +325,14 @@ def run(ctx):
     bound = 2 if q else 3
     per_cfg = {}
     for name, cfg in configs(q):
-        cap = (5000 if q else 20000)
+        cap = (5000 if q else 12000)
         k = 0
         for obs in enumerate_schedules(cfg, bound, cap=cap):
             consider(name, cfg, obs, False, 'systematic, <= %d pre-emptions' % bound)
             k += 1
         per_cfg[name] = {'schedules': k, 'capped': k >= cap}
     # random schedules at source-line granularity
-    nrand = 250 if q else 3000
+    nrand = 200 if q else 3000
     cfgs = configs(False)
     for i in range(nrand):
         name, cfg = cfgs[rng.randrange(len(cfgs))]
